@@ -305,6 +305,9 @@ _also('C03', 'every member written by the solve() closure is written by the clea
              'the reported difference; states drawn by an interrupted rejection loop are used only where known valid; pruning conserves '
              'nodes; a sub-planner run on an owned problem definition is preceded by clearSolutionPaths() on every path; refusal exits of solve() that '
              'measure the planner\'s own structures test emptiness only, so a resumed solve is never refused because the tree grew (46 exits).')
+_also('C01', 'the reported path is assembled root first (33 assemblies): parent-walk lists are appended backwards, the second tree of a '
+             'bidirectional planner forwards, link-walking appends are followed by reverse().')
+_also('C02', 'control paths are assembled root first (6 assemblies, same rule as C01/R01w).')
 _also('C04', 'running cost and its item / flag / path are assigned together (26 blocks); parent, cost and incCost move together; tree links '
              'are two-way; selected item and compared cost agree; provenance of stored edge costs (true motion cost, never an estimate) '
              'and their orientation (parent -> child; the reverse cost only under the isSymmetric() guard); cost recurrences stay within one '
